@@ -384,7 +384,16 @@ class Context:
     def script(self, asserts, get_values=(), logic="ALL", inst_terms=(), keep_quantifiers=True):
         """asserts: list of T (Bool). Only needed declarations are emitted.
         The last assert is the negated goal and is never weakened."""
-        texts = [self.instantiate(a.s, list(inst_terms), keep_quantifiers) for a in asserts[:-1]] + [asserts[-1].s]
+        terms = list(inst_terms)
+        if terms or any("(forall" in a.s for a in asserts[:-1]):
+            # further instantiation candidates: last positions of sequences, neighbours of skolems
+            blob = " ".join(a.s for a in asserts)
+            extra = set(re.findall(r"\(- \(seq\.len [^\s()]+\) 1\)", blob))
+            for t in list(inst_terms):
+                extra.add("(- %s 1)" % t)
+                extra.add("(+ %s 1)" % t)
+            terms += sorted(extra)[:12] + ["0"]
+        texts = [self.instantiate(a.s, terms, keep_quantifiers) for a in asserts[:-1]] + [asserts[-1].s]
         used = set()
         for t in texts:
             used |= symbols(t)
@@ -410,7 +419,7 @@ class Context:
                     if new:
                         used |= new
                     changed = True
-        out = ["(set-logic %s)" % logic, "(declare-sort U 0)"]
+        out = ["(set-logic %s)" % logic, "(declare-sort U 0)", "(declare-fun u!none () U)"]
         for name in self.order:
             if name in used:
                 out.append(self.decls[name][0])
